@@ -5,6 +5,7 @@ import (
 	"bytes"
 	"errors"
 	"net"
+	"strings"
 	"sync"
 	"time"
 
@@ -106,7 +107,8 @@ func (cj *CookieJar) getCookiesByHost(host string) []*fasthttp.Cookie {
 		cookies[i] = nil
 	}
 	if len(kept) != len(cookies) {
-		cj.hostCookies[host] = kept
+		// the key must own its memory: host may alias a request buffer
+		cj.hostCookies[strings.Clone(host)] = kept
 	}
 
 	return kept
@@ -188,7 +190,9 @@ func (cj *CookieJar) dumpCookiesToReq(req *fasthttp.Request) {
 
 // parseCookiesFromResp parses the cookies from the response and stores them for the specified host and path.
 func (cj *CookieJar) parseCookiesFromResp(host, _ []byte, resp *fasthttp.Response) {
-	hostStr := utils.UnsafeString(host)
+	// The map key must own its memory (assigning to an existing string key replaces the key),
+	// and cookies are not isolated by port: use the host name as lookups do.
+	hostStr := hostKey(host)
 
 	cj.mu.Lock()
 	defer cj.mu.Unlock()
@@ -197,11 +201,7 @@ func (cj *CookieJar) parseCookiesFromResp(host, _ []byte, resp *fasthttp.Respons
 		cj.hostCookies = make(map[string][]*fasthttp.Cookie)
 	}
 
-	cookies, ok := cj.hostCookies[hostStr]
-	if !ok {
-		// If the host does not exist in the map, store it as a string.
-		hostStr = string(host)
-	}
+	cookies := cj.hostCookies[hostStr]
 
 	now := time.Now()
 	resp.Header.VisitAllCookie(func(_, value []byte) {
@@ -254,6 +254,15 @@ func (cj *CookieJar) Release() {
 }
 
 // searchCookieByKeyAndPath looks up a cookie by its key and path from the provided slice of cookies.
+// hostKey returns the key cookies of host are stored under: the host name without port,
+// as a string that owns its memory.
+func hostKey(host []byte) string {
+	if h, _, err := net.SplitHostPort(string(host)); err == nil {
+		return h
+	}
+	return string(host)
+}
+
 func searchCookieByKeyAndPath(key, path []byte, cookies []*fasthttp.Cookie) *fasthttp.Cookie {
 	for _, c := range cookies {
 		if bytes.Equal(key, c.Key()) {
